@@ -126,6 +126,7 @@ class MachineGen:
         self.raise_events = [f"R{i+1}" for i in range(profile.get("raise_events", 2))]
         self.info = {"after": [], "invoke": [], "hist": [], "finals": [], "trans": {}}
         self.all_keys = []
+        self.children = {}
 
     # -- tree ---------------------------------------------------------------
     def key(self, parent=None):
@@ -485,7 +486,7 @@ class MachineGen:
         if rng.random() < p["p_machine_output"]:
             cfg["output"] = {"machine": True}
         logic = {"actions": self.actions, "guards": self.guards, "services": self.services, "delays": self.delays}
-        return {"machine": cfg, "logic": logic, "info": self.info}
+        return {"machine": cfg, "logic": logic, "info": self.info, "children": self.children}
 
     def add_after(self, n, nodes, root):
         rng, p = self.rng, self.p
@@ -514,6 +515,49 @@ class MachineGen:
             self.info["after"].append({"state": n.id, "key": key, "ms": d})
         n.cfg["after"] = after
 
+    def child_machine(self, sname):
+        """A small child machine for `invoke: {src: <machine>}`: it works for a while (a periodic timer keeps producing
+        observable actions as long as it lives), may finish on its own after a delay with an output, and may own a
+        grandchild actor - so a child that outlives its invoking state, or is forgotten un-stopped, shows in the trace."""
+        rng = self.rng
+        cid = f"k{len(self.children) + 1}"
+        acts = {}
+
+        def A(nm):
+            acts[nm] = {"eff": []}
+            return nm
+        run = {"entry": [A(f"en.{cid}.run")], "exit": [A(f"ex.{cid}.run")],
+               "on": {"POKE": {"actions": [A(f"tr.{cid}.poke")]}}, "after": {}}
+        guards = {}
+        if rng.random() < 0.7:
+            # a bounded number of ticks: every tick costs the sync engine a real thread
+            guards["g_ticks"] = {"k": "ctx_lt", "key": "n", "v": rng.choice((3, 5, 8))}
+            acts["inc_n"] = {"eff": [["inc", "n", 1]]}
+            run["after"][str(rng.choice((10, 20, 30)))] = {"target": f"#{cid}.run", "reenter": True, "guard": "g_ticks",
+                                                           "actions": [A(f"tr.{cid}.tick"), "inc_n"]}
+        fin_after = rng.choice((None, 15, 25, 40, 60))
+        if fin_after is not None and str(fin_after) not in run["after"]:
+            run["after"][str(fin_after)] = {"target": f"#{cid}.end", "actions": [A(f"tr.{cid}.fin")]}
+        if not run["after"]:
+            del run["after"]
+        logic = {"actions": acts, "guards": guards, "services": {}, "delays": {}}
+        if rng.random() < 0.35:
+            gid = f"g{len(self.children) + 1}"
+            gacts = {f"en.{gid}.run": {"eff": []}, f"tr.{gid}.tick": {"eff": []}, "inc_n": {"eff": [["inc", "n", 1]]}}
+            gcfg = {"id": gid, "initial": "run", "context": {"n": 0}, "states": {
+                "run": {"entry": [f"en.{gid}.run"], "after": {"20": {"target": f"#{gid}.run", "reenter": True, "guard": "g_ticks",
+                                                                      "actions": [f"tr.{gid}.tick", "inc_n"]}}}}}
+            self.children[gid] = {"machine": gcfg, "logic": {"actions": gacts, "guards": {"g_ticks": {"k": "ctx_lt", "key": "n", "v": 6}},
+                                                              "services": {}, "delays": {}}}
+            logic["services"][gid] = {"k": "machine", "ref": gid}
+            run["entry"].append({"type": "xstate.spawnChild", "params": {"src": gid, "id": "gc"}})
+        end = {"type": "final", "entry": [A(f"en.{cid}.end")]}
+        if rng.random() < 0.6:
+            end["output"] = {"from": cid}
+        cfg = {"id": cid, "initial": "run", "context": {"n": 0}, "states": {"run": run, "end": end}}
+        self.children[cid] = {"machine": cfg, "logic": logic}
+        return cid
+
     def add_invoke(self, n, nodes, root):
         rng, p = self.rng, self.p
         kind = rng.choice(p["svc_kinds"])
@@ -524,10 +568,16 @@ class MachineGen:
             dur = rng.choice((0, 0, 10000, 20000, 30000, 50000)) if kind == "coro" else rng.choice((0, 0, 5000))
             plan.append({"dur": dur, "out": out, "yields": rng.randint(0, 2)})
         self.services[sname] = {"k": kind, "plan": plan}
+        if kind == "machine":
+            self.services[sname] = {"k": "machine", "ref": self.child_machine(sname)}
         inv = {"src": sname, "id": f"inv_{n.key}"}
         if p.get("p_shared_invoke_id") and self.info["invoke"] and rng.random() < p["p_shared_invoke_id"]:
-            # two different states declaring the same explicit invoke id (e.g. `loading` and `retrying` both invoke "fetch")
-            inv["id"] = rng.choice(self.info["invoke"])["id"]
+            # two different states declaring the same explicit invoke id (e.g. `loading` and `retrying` both invoke "fetch");
+            # only between siblings of a compound parent: two invokes that can be active at once must have distinct ids
+            sibs = [i for i in self.info["invoke"] if n.parent is not None and n.parent.kind == "compound"
+                    and i["state"].rsplit(".", 1)[0] == n.parent.id and i["state"] != n.id]
+            if sibs:
+                inv["id"] = rng.choice(sibs)["id"]
         if rng.random() < 0.5:
             inv["input"] = {"k": n.key}
         tgt, re = self.pick_target(n, nodes, root)
@@ -536,7 +586,7 @@ class MachineGen:
             tgt, re = self.pick_target(n, nodes, root)
             inv["onError"] = self.tcfg(n, tgt, re, None)
         n.cfg["invoke"] = inv
-        self.info["invoke"].append({"state": n.id, "id": inv["id"], "src": sname})
+        self.info["invoke"].append({"state": n.id, "id": inv["id"], "src": sname, "kind": kind})
 
     def emit(self, n):
         c = dict(n.cfg)
